@@ -290,6 +290,10 @@ func (pf *ProofBobWC) Verify(Session []byte, ec elliptic.Curve, pk *paillier.Pub
 	// 4. runs only in the "with check" mode from Fig. 10
 	if X != nil {
 		s1ModQ := new(big.Int).Mod(pf.S1, ec.Params().N)
+		// s1 = 0 or e = 0 (mod q) would need the point at infinity, which ECPoint cannot hold
+		if s1ModQ.Sign() == 0 || e.Sign() == 0 {
+			return false
+		}
 		gS1 := crypto.ScalarBaseMult(ec, s1ModQ)
 		xEU, err := X.ScalarMult(e).Add(pf.U)
 		if err != nil || !gS1.Equals(xEU) {
